@@ -7,7 +7,7 @@ NEEDS_DRIVER = True
 RULE = ('subprocess runs: nesting construct (parens, brackets, CASE, function calls, subqueries, unclosed openers, BEGIN blocks, mixed) x depth (below, around and beyond the '
         'recursion limit) x recursion limit {200, 500, 1000, 3000} x entry point {parse, parsestream, split, format with option sets}; each followed by an ordinary call in the same process; '
         'successful results are checked for round trip and tree well-formedness (parent links, cached group values), formatted results for their significant tokens; every depth 1..85 at limit 80 '
-        '(parse + five layout option sets); soak: 60 failing calls in one process, then a moderately nested ordinary script; non-trivial = distinct (construct, depth, limit, entry point)')
+        '(parse + thirteen option sets; nineteen ways to nest); soak: 300 calls at depths from a quarter of the limit to beyond it, at two limits, in one process, then a moderately nested ordinary script; non-trivial = distinct (construct, depth, limit, entry point)')
 ASSUMPTIONS = ['CPython frame accounting and C-stack behaviour are observed, not modelled', 'lexer/splitter/grouping models tied by S-TREE on the nesting constructs (and by the streams of C01/C02/C04)']
 PARTIAL = ['over the model: the only failure of parse is RecursionError (parse_fails_only_by_depth), it is mapped to SQLParseError at every stage, enough depth always succeeds; what depth CPython needs for a given input (frame accounting, C stack) is observed by subprocess runs at several recursion limits, not modelled']
 
@@ -29,6 +29,14 @@ def build(kind, d):
     if kind == 'mixed': return 'select ' + '(case when f([' * d + '1' + ']) then 1 end)' * d
     if kind == 'ops': return 'select ' + '1 + ' * d + '1'
     if kind == 'list': return 'select ' + 'a, ' * d + 'a'
+    if kind == 'if': return 'create procedure p() begin ' + 'if a then ' * d + 'x; ' + 'end if; ' * d + 'end'
+    if kind == 'loop': return 'create procedure p() begin ' + 'for i in 1..2 loop ' * d + 'x; ' + 'end loop; ' * d + 'end'
+    if kind == 'compare': return 'select ' + 'a = ' * d + 'a'
+    if kind == 'assign': return 'x := ' * d + '1'
+    if kind == 'between': return 'select a where ' + 'b between ' * d + '1 and 2' + ' and 2' * d
+    if kind == 'typecast': return 'select a' + '::int' * d + ' from ' + 'a.' * d + 'b'
+    if kind == 'alias': return 'select ' + '(a) as ' * d + 'b'
+    if kind == 'over': return 'select ' + 'f(x) over (order by ' * d + 'y' + ')' * d
     raise ValueError(kind)
 def wf(node):
     for ch in node.tokens:
@@ -45,14 +53,15 @@ def wf(node):
                         if not c.tokens: return False
                         st.append(c)
     return True
-KINDS_SOAK = ['paren', 'call', 'bracket', 'case']
+KINDS_SOAK = ['call', 'paren', 'bracket']
 def sig(t, opts):
     # significant tokens of a text (whitespace aside; comments aside when they are stripped; keywords compared in upper case)
     from sqlparse import lexer, tokens as T
     out = []
     for tt, v in lexer.tokenize(t):
         if tt in T.Whitespace or (opts.get('strip_comments') and tt in T.Comment): continue
-        out.append((str(tt), v.upper() if tt in T.Keyword else v))
+        if opts.get('truncate_strings') and tt in T.String.Single: v = "'"
+        out.append((str(tt), v.upper() if (tt in T.Keyword or opts.get('identifier_case') or opts.get('keyword_case')) else v))
     return out
 def later_ok():
     # an ordinary, moderately nested script with the interpreter's default limit
@@ -70,13 +79,17 @@ for kind, depth, limit, entry, opts in cases:
         if entry == 'soak':
             # many failing calls in a row in one process: nothing may accumulate
             res = 'ok'
-            for i in range(60):
-                t2 = build(KINDS_SOAK[i %% len(KINDS_SOAK)], depth)
-                try:
-                    if i %% 2: sqlparse.parse(t2)
-                    else: sqlparse.format(t2, reindent=True)
-                except SQLParseError:
-                    pass
+            for lim2 in (limit, limit + limit // 2):
+                sys.setrecursionlimit(lim2)
+                for i in range(150):
+                    # depths from shallow to twice the limit: which pass overflows (and how much of it has run) differs from call to call;
+                    # whatever a failing call leaves behind adds up over some hundred calls
+                    t2 = build(KINDS_SOAK[i %% len(KINDS_SOAK)], lim2 // 4 + ((i // len(KINDS_SOAK)) * lim2) // 50)
+                    try:
+                        if i %% 3: sqlparse.parse(t2)
+                        else: sqlparse.format(t2, reindent=True)
+                    except SQLParseError:
+                        pass
         elif entry == 'parse':
             r = sqlparse.parse(text); res = 'ok'
             if ''.join(str(s) for s in r).strip() != text.strip(): res = 'bad-roundtrip'
@@ -108,8 +121,14 @@ for kind, depth, limit, entry, opts in cases:
 '''
 
 KINDS = ['paren', 'bracket', 'case', 'call', 'subquery', 'unclosed', 'closers', 'begin', 'mixed', 'ops', 'list']
+# further ways to nest (depth scan only)
+KINDS2 = ['if', 'loop', 'compare', 'assign', 'between', 'typecast', 'alias', 'over']
 OPTS = [{}, {'reindent': True}, {'reindent_aligned': True}, {'strip_comments': True, 'strip_whitespace': True}, {'use_space_around_operators': True},
         {'reindent': True, 'indent_columns': True, 'comma_first': True}, {'keyword_case': 'upper', 'output_format': 'python'}]
+# every remaining layout sub-option and filter at least once (depth scan)
+OPTS2 = [{'reindent': True, 'indent_tabs': True}, {'reindent': True, 'indent_width': 8, 'indent_after_first': True}, {'reindent': True, 'wrap_after': 5, 'compact': True},
+         {'strip_comments': True}, {'strip_whitespace': True}, {'keyword_case': 'lower', 'identifier_case': 'upper', 'truncate_strings': 2},
+         {'reindent': True, 'output_format': 'php'}, {'reindent_aligned': True, 'indent_tabs': True, 'use_space_around_operators': True}]
 
 
 def build(kind, d):
@@ -140,11 +159,14 @@ def run(ctx):
     # every depth around the point where a low recursion limit starts to bite: which frame overflows first (a pass, a constructor, a filter between
     # deleting and inserting, the serializer) changes from one depth to the next
     SCAN_LIMIT = 80
-    for ki, kind in enumerate(KINDS):
+    scan_opts = OPTS[1:6] + OPTS2
+    for ki, kind in enumerate(KINDS + KINDS2):
         for depth in range(1, (96 if not ctx.quick() else (30 if kind == 'mixed' else 86))):
+            if ctx.quick() and kind in KINDS2 and depth % 2:
+                continue
             cases.append((kind, depth, SCAN_LIMIT, 'parse', {}))
-            for oi, opts in enumerate(OPTS[1:6]):
-                if ctx.quick() and (depth + ki + oi) % 3:
+            for oi, opts in enumerate(scan_opts):
+                if ctx.quick() and (depth + ki + oi) % 5:
                     continue
                 cases.append((kind, depth, SCAN_LIMIT, 'format', opts))
     cases.append(('paren', 400, 200, 'soak', {}))
